@@ -25,19 +25,20 @@ RULE = (
     "Fitted models from small generated datasets: ThresholdOptimizer (2..3 groups each with both labels, "
     "tie-heavy scores, 7 constraints x objectives x flip x grid sizes), ExponentiatedGradient with an exact "
     "table learner (5 parity moments, eps, max_iter, with/without LP step) and ExponentiatedGradient regression "
-    "with BoundedGroupLoss; query sets = training rows, subsets, duplicates and unseen scores / levels; 500 "
-    "draws per query row (50 tiles x 10 drawn seeds). Non-trivial: some query row has p in (0.05, 0.95) "
+    "with BoundedGroupLoss; query sets = training rows, subsets, duplicates and unseen scores / levels; 4 000 "
+    "draws per query row (400 tiles x 10 drawn seeds). Non-trivial: some query row has p in (0.05, 0.95) "
     "(regression: >= 2 positive-weight predictors with different outputs on some row)."
 )
 ASSUMPTIONS = [
-    "per-row |frequency - p| <= 0.2 over 500 independent draws: Hoeffding false-alarm probability <= 2e-17 per row; "
+    "per-row |frequency - p| <= 0.08 over 4 000 independent draws (regression branch: 0.2 over 500): Hoeffding false-alarm probability <= 2e-17 per row; "
     "pooled standardised deviation <= 8 sigma",
     "the stored predictors' own predict() is the ground truth for the mixture (their correctness is C08/C09)",
     "fits that raise sklearn's 'sample_weight contains NaN' (all signed weights cancel) yield no model and are skipped",
 ]
 
-DRAW_TILES, DRAW_SEEDS = 50, 10
-EPS_P = 0.2
+DRAW_TILES, DRAW_SEEDS = 400, 10  # 4 000 draws per query row: a pooled bias of ~0.02 over ten rows is 8 sigma
+EPS_P = 0.08  # Hoeffding with 4 000 draws: 2*exp(-2*4000*0.08^2) = 1e-22 per row
+REG_TILES = 50  # the regression branch samples row by row in Python: 500 draws per row, bound 0.2
 
 
 # ---- sampling oracle --------------------------------------------------------------------------------------
@@ -270,13 +271,13 @@ def check_eg_regression(case):
     Xq = np.asarray(case["query_levels"], dtype=float).reshape(-1, 1)
     m = len(Xq)
     outs = {t: np.asarray(eg.predictors_[t].predict(Xq), dtype=float) for t in w.index}
-    total = DRAW_TILES * len(case["seeds"])
-    Xt = np.tile(Xq, (DRAW_TILES, 1))
+    total = REG_TILES * len(case["seeds"])
+    Xt = np.tile(Xq, (REG_TILES, 1))
     draws = []
     for k, s in enumerate(case["seeds"]):
-        out = np.asarray(eg.predict(Xt, random_state=s), dtype=float).reshape(DRAW_TILES, m)
+        out = np.asarray(eg.predict(Xt, random_state=s), dtype=float).reshape(REG_TILES, m)
         if k == 0:
-            again = np.asarray(eg.predict(Xt, random_state=s), dtype=float).reshape(DRAW_TILES, m)
+            again = np.asarray(eg.predict(Xt, random_state=s), dtype=float).reshape(REG_TILES, m)
             if not np.array_equal(out, again):
                 raise PropertyViolation("regression predict with the same random_state is not reproducible")
         draws.append(out)
@@ -296,7 +297,7 @@ def check_eg_regression(case):
                 raise PropertyViolation(f"row {i}: predict returned {v}, which is not the output of any stored predictor with positive weight (outputs/weights: {dist})")
         for u, pu in dist.items():
             f = float(np.mean(np.abs(col - u) <= 1e-8))
-            if abs(f - pu) > EPS_P:
+            if abs(f - pu) > 0.2:
                 raise PropertyViolation(f"row {i}: the predictor output {u} is returned with frequency {f:.3f} over {total} draws but carries weight {pu:.3f} (weights_ {w.to_dict()})")
     tags = ["lp" if case["lp"] else "no_lp"]
     if nontrivial:
